@@ -522,3 +522,19 @@ class RealThread(object):
 
 def real_thread_factory(target, name):
     return RealThread(target, name)
+
+
+def run_index(i, seed, tier, emit):
+    import sys
+    from simkit.runner import safe_run_tape
+    from simkit.tape import Tape
+    mod = sys.modules[__name__]
+    if i % 400 == 399:
+        # both straggler histories with their single pre-emption placed at every line point in turn (a stride in the quick tier)
+        for mode in (9, 8):
+            for k in range(0, 200, 3 if tier == 'quick' else 1):
+                t = Tape(seed, prefix=[mode, k])
+                emit(safe_run_tape(mod, t), t)
+        return
+    t = Tape(seed)
+    emit(safe_run_tape(mod, t), t)
